@@ -135,6 +135,19 @@ def run_setops(case, ctx):
                 ctx.violation(f'index.{name}|wrong-label-set|pool={pool}', **info, got=got, expected=sorted(map(repr, exp)))
             elif ka == kb and name != 'difference' and got != ka:
                 ctx.violation(f'index.{name}|identical-operands-reordered|pool={pool}', **info, got=got, expected=ka)
+            # the other operand as an unlabelled array / list that repeats a label: still plain set algebra, each label once
+            if sb and pool in ('int', 'str', 'date'):
+                rep_b = list(sb) + [sb[0]]
+                for form, operand in (('array-with-repeat', np.array(rep_b) if pool != 'date' else np.array(rep_b, dtype='datetime64[D]')), ('list-with-repeat', rep_b)):
+                    ctx.transition()
+                    try:
+                        r2 = getattr(ia, name)(operand)
+                    except Exception as e:
+                        ctx.violation(f'index.{name}|{form}|raises|{type(e).__name__}|pool={pool}', **info, error=repr(e))
+                        continue
+                    got2 = [lkey(x) for x in r2.values]
+                    if len(got2) != len(set(got2)) or set(got2) != exp:
+                        ctx.violation(f'index.{name}|{form}|wrong-label-set|pool={pool}', **info, got=got2, expected=sorted(map(repr, exp)))
         ctx.outcome('setops:' + pool)
     ctx.sample({'family': 'setops', 'pool': pool, 'sequences': len(seqs)}, limit=1)
 
